@@ -17,7 +17,8 @@ RULE = ("seeded build files for chains (5-14 residues, two residue names, 1-3 co
         "generated build-file *spec* and evaluated on the final residue positions with an own implementation of the "
         "documented geometry, minimum-image distances and the search-tree parent of each residue; sampled end-to-end "
         "distances are captured at generate_end_end_distances. non-trivial = run in which >= 1 restraint selected "
-        ">= 1 generated residue; distinct = hash(topology, build file, options)")
+        ">= 1 generated residue; distinct = hash(topology, build file, options)"
+        ' Later modes: several restraints of one kind on a residue (shell), rings started inside / ring bonds in any order, two direction lines in one block (known finding), two restrained species of different residue size.')
 ASSUMPTIONS = ["only satisfiable build files are generated (an unsatisfiable one makes the builder retry forever): 'in' "
                "regions cover the chain and are >= 2.5 nm, 'out' regions <= 2 nm, restrained distances in [one step, "
                "0.9 contour]",
